@@ -1,5 +1,132 @@
-"""quote!-template reconstruction over the MIR of peginator_codegen (G-level)."""
+"""quote!-template facts over the MIR of peginator_codegen (G-level).
+
+In MIR (`-Zmir-opt-level=0`) a `quote!` expansion is an explicit call
+sequence on a `TokenStream` local: `push_ident(&mut S, const "x")`,
+`push_<punct>(&mut S)`, `push_group(&mut S, Delimiter, inner)`,
+`ToTokens::to_tokens(&value, &mut S)` for `#value`.  This module recovers
+those events with their provenance.
+"""
+from .. import mir
+from ..mir import short, last, strip, walk, norm, is_call
+
+PUNCT = {
+    "push_dot": ".", "push_comma": ",", "push_and": "&", "push_star": "*", "push_or": "|", "push_dot2": "..",
+    "push_colon": ":", "push_colon2": "::", "push_semi": ";", "push_eq": "=", "push_question": "?",
+    "push_rarrow": "->", "push_fat_arrow": "=>", "push_lt": "<", "push_gt": ">", "push_bang": "!",
+    "push_pound": "#", "push_add": "+", "push_add_eq": "+=", "push_eq_eq": "==", "push_ne": "!=",
+    "push_sub": "-", "push_and_and": "&&", "push_or_or": "||", "push_underscore": "_", "push_at": "@",
+    "push_dot3": "...", "push_dot_dot_eq": "..=", "push_le": "<=", "push_ge": ">=", "push_div": "/",
+    "push_rem": "%", "push_caret": "^", "push_shl": "<<", "push_shr": ">>", "push_sub_eq": "-=",
+    "push_lifetime": "'",
+}
 
 
-def check_c04_ascii(cx, chk):
-    pass
+def str_consts(b):
+    """(bb, local, value) for every string constant assigned in body b."""
+    for i in sorted(b.reach):
+        for st in b.blocks[i]["stmts"]:
+            if st["k"] == "assign" and st["rv"]["k"] == "use" and st["rv"]["op"]["k"] == "const" and "str" in st["rv"]["op"]:
+                yield i, st["place"]["l"], st["rv"]["op"]["str"]
+
+
+def events(cx, crate, b):
+    """Token events of body b: dicts {bb, kind, text/expr, stream(local)}."""
+    out = []
+    for i, t in b.calls():
+        f = t["func"]
+        if f.get("indirect"):
+            continue
+        l = last(f["path"])
+        if l == "to_tokens" and "ToTokens" in f["path"]:
+            out.append({"bb": i, "kind": "hole", "expr": norm(b.expr_op(t["args"][0])),
+                        "stream": norm(b.expr_op(t["args"][1]))})
+        elif "__private" in f["path"] or "quote::" in f["path"]:
+            stream = norm(b.expr_op(t["args"][0])) if t["args"] else None
+            if l in ("push_ident", "push_ident_spanned"):
+                s = b.expr_op(t["args"][-1])
+                s = strip(s)
+                out.append({"bb": i, "kind": "ident", "text": s[2] if s[0] == "const" else None, "expr": s, "stream": stream})
+            elif l in PUNCT or l.startswith("push_") and l.replace("_spanned", "") in PUNCT:
+                out.append({"bb": i, "kind": "punct", "text": PUNCT.get(l.replace("_spanned", ""), l), "stream": stream})
+            elif l in ("push_group", "push_group_spanned"):
+                d = norm(b.expr_op(t["args"][-2]))
+                inner = norm(b.expr_op(t["args"][-1]))
+                out.append({"bb": i, "kind": "group", "text": d[2] if d[0] == "agg" else "?", "inner": inner, "stream": stream})
+            elif l == "parse" or l == "parse_spanned":
+                out.append({"bb": i, "kind": "parse", "expr": norm(b.expr_op(t["args"][-1])), "stream": stream})
+            elif l == "mk_ident":
+                out.append({"bb": i, "kind": "mk_ident", "expr": norm(b.expr_op(t["args"][0])), "stream": None})
+            elif l.startswith("push_"):
+                out.append({"bb": i, "kind": "punct", "text": l, "stream": stream})
+    return out
+
+
+def check_c04_ascii(cx, chk, insens_names=("parse_character_literal_insensitive", "parse_string_literal_insensitive")):
+    """Every place the generator selects a case-insensitive matcher is dominated by the
+    ASCII test of the literal, and only the lower-cased literal is emitted there."""
+    cg = cx.codegen
+    if cg is None:
+        chk.anchor_missing("C04.ascii", "peginator_codegen crate")
+        return
+    sites = 0
+    for p, f in sorted(cg.fns.items()):
+        if "mir" not in f or "::grammar::generated::" in p:
+            continue
+        b = cx.body(cg, p)
+        hits = [(i, l, v) for (i, l, v) in str_consts(b) if v in insens_names]
+        if not hits:
+            # direct emission of the identifier would bypass the guard entirely
+            for ev in events(cx, cg, b):
+                if ev["kind"] == "ident" and ev.get("text") in insens_names:
+                    chk.violation("C04.ascii", "%s emits %s directly" % (short(p), ev["text"]),
+                                  "case-insensitive matcher emitted without the ASCII guard", cx.site(b, ev["bb"]))
+            continue
+        evs = events(cx, cg, b)
+        for (i, l, v) in hits:
+            sites += 1
+            tag = "%s selects %s" % (short(p), v)
+            X = None
+            for (e, tv, d) in b.atoms(i):
+                if tv is True and is_call(e, "is_ascii") and len(e[2]) == 1:
+                    X = e[2][0]
+            if X is None:
+                chk.violation("C04.ascii", tag + " unguarded",
+                              "the generator selects %s on a path that is not dominated by a successful is_ascii() "
+                              "test of the literal: non-ASCII case-insensitive literals reach the byte-wise matcher "
+                              "(its unsafe advance can split a UTF-8 sequence)" % v, cx.site(b, i))
+                continue
+            # X must be the decoded literal (unwrap through deref-call normalisation)
+            def has_lower_of_X(e):
+                for s in walk(e):
+                    if is_call(s, "to_ascii_lowercase") and len(s[2]) == 1 and strip_deref_calls(s[2][0]) == strip_deref_calls(X):
+                        return True
+                return False
+            bad = []
+            n_holes = 0
+            for ev in evs:
+                if ev["kind"] == "hole" and (ev["bb"] == i or b.dominates(i, ev["bb"])) and not _after_join(b, i, ev["bb"]):
+                    n_holes += 1
+                    if not has_lower_of_X(ev["expr"]):
+                        bad.append(ev)
+            if bad:
+                for ev in bad:
+                    chk.violation("C04.ascii", tag + " emits-unlowered",
+                                  "literal emitted for %s is not the to_ascii_lowercase of the ASCII-tested literal: %s"
+                                  % (v, mir.show(ev["expr"])), cx.site(b, ev["bb"]))
+            elif n_holes == 0:
+                chk.violation("C04.ascii", tag + " no-literal", "no literal emission found in the arm selecting %s" % v, cx.site(b, i))
+            else:
+                chk.ok("C04.ascii", tag, {"fn": short(p), "matcher": v, "guard": "is_ascii(%s)" % mir.show(X),
+                                          "emitted": "to_ascii_lowercase of the same literal"})
+    chk.floor("C04.ascii", "generator sites selecting an insensitive matcher", sites, 2)
+
+
+def strip_deref_calls(e):
+    while isinstance(e, tuple) and e and e[0] == "call" and last(e[1]) in ("deref", "as_str", "as_ref", "borrow") and len(e[2]) == 1:
+        e = e[2][0]
+    return e
+
+
+def _after_join(b, arm, bb):
+    """bb is dominated by `arm` always (caller checked); kept for clarity."""
+    return False
